@@ -16,5 +16,11 @@ CHECKS = {
                  "factory.protocol use, no mutation of class/module-level objects reachable from any entry point, the identifier counter "
                  "is the only shared factory field. Decides the structural isolation, not trace equality.",
          "note": BASE_NOTE + " RNG jitter is treated as an input.", "technique": "who-may-access / key-discipline check over resolved registry accesses (ownership analysis)"},
+ "C20": {"text": "Guard/interval extraction on every path of the API entry points: accepted interval of each numeric argument (union over "
+                 "accepting paths, each path inside it) equals the stated one; accepting paths of connect() refute every forbidden "
+                 "argument combination and rejecting paths entail one (no spurious rejection); every rejection is a failed Deferred / raise "
+                 "of a ValueError or TypeError subclass (class hierarchy resolved in error.py, unbound names on the raise path included); "
+                 "no rejecting path contains a write, queue/window insertion, timer or state change. Decides the guards, not run-time values.",
+         "note": BASE_NOTE + " Strict bounds are normalised assuming integer arguments.", "technique": "path-sensitive guard/interval extraction + effect-before-reject ordering check"},
 }
 NOT_APPLICABLE = {}
